@@ -3,6 +3,7 @@ division and modulo, wraparound at 64 bits, typed little/big-endian and variable
 and a generator of small random programs.  Used by Engine N family `forth_programs` (BOUNDED): the real
 ForthMachine64 is run on the same source and input bytes in three schedules (run with resume after every pause,
 single-stepped, mixed) and with different output-buffer growth settings."""
+import re
 import struct
 
 ERR = {"none": 0, "user_halt": 3, "recursion_depth_exceeded": 4, "stack_underflow": 5, "stack_overflow": 6,
@@ -291,7 +292,27 @@ class Machine:
                     dtype, arr = self.outputs[target]
                     arr.append(to_dtype(v, dtype))
 
-            if spec in ("varint", "zigzag"):
+            nb = re.fullmatch(r"(\d+)bit", spec)
+            if nb:
+                # N-bit unsigned fields, least significant bit first (`!`: the bits of every byte reversed first); bytes
+                # are taken one at a time as the window runs short, items before a failing byte stay delivered, the
+                # unused bits of the last byte are dropped when the instruction ends
+                n = int(nb.group(1))
+                window, have = 0, 0
+                for _ in range(count):
+                    while have < n:
+                        if self.pos[name] >= len(data):
+                            raise ForthError("read_beyond")
+                        byte = data[self.pos[name]]
+                        self.pos[name] += 1
+                        if big:
+                            byte = int("{:08b}".format(byte)[::-1], 2)
+                        window |= byte << have
+                        have += 8
+                    deliver("int", window & ((1 << n) - 1))
+                    window >>= n
+                    have -= n
+            elif spec in ("varint", "zigzag"):
                 # decoded and delivered one by one: values before a failing one stay delivered
                 for _ in range(count):
                     shift, result = 0, 0
@@ -455,6 +476,17 @@ def gen_program(rng):
     decl, body = [], []
     inputs = {}
     outs, vars_, words = [], [], []
+    if rng.random() < 0.04:
+        # one long run of bit fields wider than a byte (the bit window has to be refilled and drained many times)
+        n = rng.randint(12, 48)
+        data = bytes(rng.randrange(256) for _ in range(n))
+        width = rng.choice([9, 10, 11, 12, 13, 15, 16, 17, 20, 23, 24, 27, 30, 31])
+        count = max(0, (n * 8) // width - rng.choice([0, 0, 1, 3]))
+        big = "!" if rng.random() < 0.3 else ""
+        if rng.random() < 0.6:
+            dt = rng.choice(["int64", "uint32", "uint64", "float64"])
+            return "input x output y %s %d x #%s%dbit-> y x pos" % (dt, count, big, width), {"x": data}
+        return "input x %d x #%s%dbit-> stack x pos" % (count, big, width), {"x": data}
     if rng.random() < 0.6:
         n = rng.randint(0, 24)
         data = bytes(rng.choice([0, 1, 2, 3, 127, 128, 255, rng.randrange(256)]) for _ in range(n))
@@ -510,6 +542,12 @@ def gen_program(rng):
                 rep = rng.random() < 0.3
                 tgt = rng.choice(["stack"] + outs)
                 pre = [str(rng.randint(0, 3))] if rep else []
+                if rng.random() < 0.12:
+                    # bit fields of 1..31 bits (wider ones: KF-C19-nbit-wide), singly or in long runs
+                    t = "%dbit" % rng.choice([1, 2, 3, 5, 7, 8, 9, 11, 12, 13, 16, 17, 23, 24, 30, 31])
+                    big = "!" if rng.random() < 0.3 else ""
+                    rep = rng.random() < 0.7
+                    pre = [str(rng.choice([0, 1, 2, 3, 5, 8, 13, 16, 20]))] if rep else []
                 return pre + ["x", ("#" if rep else "") + big + t + "->", tgt]
             if k < 0.6:
                 return ["x", rng.choice(["len", "pos", "end"])]
